@@ -100,7 +100,7 @@ def main(argv=None):
         return plan.do_replay(pid, args.replay, REPO)
     from specs import load_all
     C, R = load_all()
-    timeout_ms = 10000 if args.tier == 'quick' else 60000
+    timeout_ms = 30000 if args.tier == "quick" else 120000
     tasks = []
     for key, c in C.items():
         if pid in c.get('props', []):
@@ -110,8 +110,10 @@ def main(argv=None):
     if not tasks:
         print(f'CHECKER-FAULT: no obligations are generated for {pid}')
         return 3
-    with mp.get_context('fork').Pool(min(args.jobs, max(1, len(tasks)))) as pool:
-        reports = pool.map(_task, tasks, chunksize=1)
+    # non-daemonic workers (stand-ins for C18 start their own process pools)
+    from concurrent.futures import ProcessPoolExecutor
+    with ProcessPoolExecutor(max_workers=min(args.jobs, max(1, len(tasks))), mp_context=mp.get_context('fork')) as pool:
+        reports = list(pool.map(_task, tasks))
     from vcheck.decide import decide
     return decide(pid, args.tier, seed, reports, load_known(pid), time.time() - t0, write_replay, verbose=args.verbose)
 
